@@ -124,7 +124,17 @@ def call(spec, base_url):
         cfg = config.Config()
         cfg.add(config.Scope.application, "benchmarks", "local.dataset.cache", os.path.dirname(cache_dir))
         cfg.add(config.Scope.application, "track", "track.path", track_dir)
-        corpus = track.DocumentCorpus(os.path.basename(cache_dir), documents=[docset])
+        # the corpus itself has three document sets: a small one bundled next to track.json BEFORE the one under test, and a small one that sits
+        # complete in the corpus cache AFTER it (docs/track.rst: "documents: a list of documents files")
+        body = b'{"decoy": 1}\n{"decoy": 2}\n{"decoy": 3}\n'
+        siblings = []
+        for name, where in (("c14-first-of-corpus.json", track_dir), ("c14-last-of-corpus.json", cache_dir)):
+            with open(os.path.join(where, name), "wb") as f:
+                f.write(body)
+            siblings.append((os.path.join(where, name), track.Documents(
+                source_format=track.Documents.SOURCE_FORMAT_BULK, document_file=name, number_of_documents=3, uncompressed_size_in_bytes=len(body), target_index="idx")))
+        sets = {0: [docset], 1: [siblings[0][1], docset, siblings[1][1]], 2: [siblings[0][1], docset], 3: [docset, siblings[1][1]]}[spec.get("position", 0) // 3 % 4]
+        corpus = track.DocumentCorpus(os.path.basename(cache_dir), documents=sets)
         # The way a race does it: the track has several corpora, the real DefaultTrackPreparator yields one task per corpus the challenge
         # uses, ALL tasks are collected first (TrackPreparationActor._seed_tasks) and then taken from the end of the list one by one
         # (receiveMsg_ReadyForWork) and run as func(**params) (TaskExecutionActor). The two other corpora are tiny, complete and local.
@@ -155,6 +165,7 @@ def call(spec, base_url):
             from esrally.utils import io as rally_io
 
             DECOYS_UNPREPARED[:] = [c.name for path, c in decoys if not rally_io.FileOffsetTable.create_for_data_file(path).exists()]
+            DECOYS_UNPREPARED.extend(f"document set {d.document_file} of the same corpus" for path, d in siblings if d in sets and not rally_io.FileOffsetTable.create_for_data_file(path).exists())
         return None
     raise ValueError(entry)
 
